@@ -57,8 +57,8 @@ ASSUMPTIONS = [
     "a late type is registered like a downstream library does it: subclass + @ufl_type after `import ufl`",
     "an algorithm instance kept across a registration is within the quantifier (separate mechanism keys *held-instance*)",
 ]
-BUDGET = {"quick": 75, "thorough": 420}
-NCASES = {"quick": 260, "thorough": 5200}
+BUDGET = {"quick": 100, "thorough": 420}
+NCASES = {"quick": 170, "thorough": 5200}
 WORKERS = {"quick": 16, "thorough": 16}
 EVAL_COUNTER = "u_steps_compared"
 FLOORS = {
@@ -234,10 +234,28 @@ def random_history(rng, cat):
 # ------------------------------------------------------------------------------------------------
 # oracle
 # ------------------------------------------------------------------------------------------------
+def show_for(steps, alg):
+    """Compact history: the registrations and the steps of `alg`; other algorithms' steps are summarised."""
+    out = []
+    other = 0
+    for s in steps:
+        if s["op"] == "R" or s.get("alg") == alg:
+            if other:
+                out.append(f"<{other} steps of other algorithms>")
+                other = 0
+            out.append(show([s]))
+        else:
+            other += 1
+    if other:
+        out.append(f"<{other} steps of other algorithms>")
+    return " ".join(out)
+
+
 def outcome_key(o):
     if o["status"] == "ok":
         return ("ok", o.get("canon"))
-    return ("exc", o.get("exc"), bool(o.get("table")), o.get("phase"))
+    where = tuple(o.get("where") or ())[:2] if o.get("table") else None
+    return ("exc", o.get("exc"), bool(o.get("table")), o.get("phase"), where)
 
 
 def brief(o):
@@ -283,7 +301,7 @@ def judge(ctx, steps, label):
                 ent = cat["entries"][st["alg"]]
                 ctx.violation(
                     f"C20/{ent['base']}/instantiation-differs/{st['alg']}",
-                    f"instantiating {st['alg']} gives {brief(t)} in [{show(steps)}] but {brief(r)} type-first",
+                    f"instantiating {st['alg']} gives {brief(t)} in [{show_for(steps, st['alg'])}] but {brief(r)} type-first",
                     {"history": steps, "step": pos},
                 )
                 nviol += 1
@@ -343,14 +361,14 @@ def judge(ctx, steps, label):
                 failure = f"exception-differs-{how}"
             ctx.violation(
                 f"C20/{base}/{failure}/{alg}",
-                f"{show([st])} gives {brief(t)} in history [{show(steps)}], but {brief(r)} when the registrations come first",
+                f"{show([st])} gives {brief(t)} in history [{show_for(steps, alg)}], but {brief(r)} when the registrations come first",
                 detail,
             )
             nviol += 1
         elif sorted(t.get("trace", [])) != sorted(r.get("trace", [])):
             ctx.violation(
                 f"C20/{base}/handler-differs-{how}/{alg}",
-                f"{show([st])}: the late-type instance reached {t.get('trace')} in history [{show(steps)}] but {r.get('trace')} "
+                f"{show([st])}: the late-type instance reached {t.get('trace')} in history [{show_for(steps, alg)}] but {r.get('trace')} "
                 "type-first (same outcome)",
                 detail,
             )
@@ -361,7 +379,7 @@ def judge(ctx, steps, label):
             ctx.violation(
                 f"C20/{base}/no-dispatch-even-type-first{'-held-instance' if held else ''}/{alg}",
                 f"{show([st])} dies in a typecode table lookup although the type was registered before any algorithm use: "
-                f"{brief(r)}; type-first history [{show(ref_steps)}]",
+                f"{brief(r)}; type-first history [{show_for(ref_steps, alg)}]",
                 {"history": ref_steps, "step": ref_of[pos], "observed": r, "label": label},
             )
             nviol += 1
@@ -369,7 +387,7 @@ def judge(ctx, steps, label):
         ctx.count("histories_without_violation")
     ctx.sample(
         {
-            "history": show(steps),
+            "history": show(steps)[:1500],
             "label": label,
             "steps": [
                 {"step": show([s]), "observed": brief(test[i])[:120], "type_first": brief(ref[ref_of[i]])[:120], "trace": test[i].get("trace", [])[:4]}
@@ -390,7 +408,7 @@ def setup(ctx):
         raise RuntimeError("driver and check disagree about the late-type kinds")
 
 
-GROUP = 7
+GROUP = 10
 
 
 def enumeration(cat, tier, seed):
